@@ -110,7 +110,8 @@ class Bin:
             return True, ""
         os.makedirs(os.path.dirname(p), exist_ok=True)
         tmp = p + ".tmp%d" % os.getpid()
-        cmd = self.flags() + [os.path.join(ENGINE, self.source), "-o", tmp]
+        src = self.source if os.path.isabs(self.source) else os.path.join(ENGINE, self.source)
+        cmd = self.flags() + [src, "-o", tmp]
         r = subprocess.run(cmd, stdout=subprocess.PIPE, stderr=subprocess.STDOUT, text=True)
         if r.returncode != 0:
             try:
